@@ -11,7 +11,7 @@ give a dict-like API to a synchronized data structure.
 from collections.abc import Mapping, MutableMapping
 
 from ..utils import AbstractTypeResolver
-from .synced_collection import SyncedCollection, _sc_resolver
+from .synced_collection import SyncedCollection, _same_data, _sc_resolver
 
 # Identifies mappings, which are the base type for this class.
 _mapping_resolver = AbstractTypeResolver(
@@ -141,7 +141,7 @@ class SyncedDict(SyncedCollection, MutableMapping):
                             self._validate({key: new_value})
                         self._data[key] = self._from_base(new_value, parent=self)
                     else:
-                        if new_value == existing:
+                        if _same_data(new_value, existing):
                             continue
                         # None is a value here (JSON null), not "no data".
                         if (
